@@ -263,7 +263,7 @@ func VerifC04_Bodies() {
 	items := []string{"aa", "bb", "cc"}[:n]
 	body := `<ul><` + root + ` v-for="it in items">` + bodies[k] + `</` + root + `></ul>`
 	fsys := newZZFS(map[string]string{"c.vuego": `<em>{{ p }}</em>`, "s.vuego": `<section><slot></slot></section>`})
-	out, err := zzRender(NewFS(fsys), body, map[string]any{"items": items})
+	out, err := zzRenderVia(zzEntry(), fsys, nil, body, map[string]any{"items": items})
 	zzNote("template", body)
 	zzNote("out", out)
 	zzAssert(err == nil, "C04.bodies.render-error")
